@@ -141,9 +141,9 @@ func c14RenderDoc(d c14Doc) []string {
 	if d.Syntax != "ok" {
 		t := c14RenderPolicy(d.Stmts, 0, false)
 		return []string{
-			t[:len(t)-1],                    // final brace missing
-			t + "}",                         // one brace too many
-			t[:len(t)/2],                    // truncated
+			t[:len(t)-1], // final brace missing
+			t + "}",      // one brace too many
+			t[:len(t)/2], // truncated
 			strings.Replace(t, `"Statement"`, `Statement`, 1), // unquoted member name
 			strings.Replace(t, "}]}", "},]}", 1),              // trailing comma
 			strings.Replace(t, `"`, `'`, -1),                  // single quotes
@@ -210,6 +210,7 @@ func (s c14IAM) Shutdown() error                                   { return nil 
 // c14HTTPActions are the policy actions for which the harness knows a request
 // whose authorization is decided by exactly that action on exactly that resource.
 var c14HTTPObjActions = []string{"s3:GetObject", "s3:GetObjectTagging", "s3:GetObjectAcl", "s3:DeleteObject", "s3:PutObject"}
+
 // (s3:GetBucketVersioning is left out: GET ?versioning additionally requires the
 // caller to be the bucket owner or an admin, so the policy alone does not decide.)
 var c14HTTPBktActions = []string{"s3:ListBucket", "s3:GetBucketAcl", "s3:GetBucketPolicy", "s3:GetBucketTagging", "s3:ListBucketVersions", "s3:ListBucketMultipartUploads"}
